@@ -16,7 +16,7 @@ placement/objects: the oracle is one loop over the Dump rows, capacity in IEEE d
 Query grammar (per state, all values are concrete strings derived from the state's *focus*: the
 provider / class / trait / aggregate its decoration touched; a base state is evaluated under
 several foci):
-  name      existing | unknown | empty string
+  name      existing | unknown | empty string | existing with a leading / trailing blank
   uuid      existing | unknown
   in_tree   the focus provider (a root or a child) | a provider of another tree | unknown uuid
   member_of A | in:A,B | !A | !in:B,C | UNK | in:UNK,B | A & C (repeated) | in:A,C & !B |
@@ -54,7 +54,7 @@ AMOUNTS = (1, 2, 3, 4, 5, 8, 9)
 BASE_PARTS = 8
 # values that select nothing / everything (or are answered 400) in every state, by construction
 BY_CONSTRUCTION = frozenset([
-    'member_of=!UNK', 'name=unknown', 'name=empty', 'uuid=unknown', 'in_tree=unknown', 'member_of=UNK',
+    'member_of=!UNK', 'name=unknown', 'name=empty', 'name=padded-left', 'name=padded-right', 'uuid=unknown', 'in_tree=unknown', 'member_of=UNK',
     'member_of=A&!A', 'required=unknown', 'required=in:T,unknown', 'required=!unknown',
     'resources=unknown', 'resources=c:1,unknown'])
 
@@ -201,6 +201,9 @@ def menus(desc, fp, fc):
         V('name', 'existing', (1, 0), pname(fp), (), True, True),
         V('name', 'unknown', (1, 0), 'no-such-provider', (), True, True),
         V('name', 'empty', (1, 0), '', (), False, True),
+        # exact means exact: the same name with a blank before / after it names nobody
+        V('name', 'padded-left', (1, 0), ' ' + pname(fp), (), False, False),
+        V('name', 'padded-right', (1, 0), pname(fp) + ' ', (), False, False),
     ]
     m['uuid'] = [
         V('uuid', 'existing', (1, 0), P(fp), (), True, True),
